@@ -203,7 +203,10 @@ func checkModified(s *RunSpec, w *world, res [][]opResult, worldName string, out
 					"physical snapshot of the operation's input differs after the call (addresses, capacities and spare capacity included)"))
 			}
 			if r.incons {
-				detail := "the same octets decoded from a fresh buffer (expected) and from a receive buffer that is refilled in place (actual)"
+				detail := "the same octets decoded from a fresh buffer (expected) and from a receive buffer that is refilled in place (actual), or into a fresh packet object (expected) and into one that was decoded into before (actual)"
+				if s.Tasks[t][i].K == opUnmTyped {
+					detail = "receiver reuse: the same octets decoded into a fresh packet object (expected) and into one that was decoded into before (actual); what the two objects encode to, list and print is compared"
+				}
 				if s.Tasks[t][i].K == opVolume {
 					detail = "inside one volume operation: a result compared with the first result of the same call on the same value, or a decoded packet compared with itself as returned"
 				}
